@@ -12,8 +12,14 @@ pub fn plan() -> Plan {
     let mut single = base_profile("c01-single");
     single.stepping = Stepping::Single;
     single.burst_pm = 150;
+    // small retention: slow subscribers lose evicted messages (tolerated), everything else is judged
+    let mut lossy = base_profile("c01-small-retention");
+    lossy.segments = vec![(1024, 1), (1024, 2), (2048, 3)];
+    lossy.burst_pm = 250;
+    lossy.w.stall = 6;
+    lossy.persistent_pm = 200;
     Plan {
-        profiles: vec![mixed, turns, single],
+        profiles: vec![mixed, turns, single, lossy],
         directed: vec![],
         quick_histories: 400,
         thorough_histories: 60_000,
